@@ -627,6 +627,13 @@ theorem fChild_keeps (high : Bool) (hs : Nat) (h : Nat) : AKeeps h (fChild high 
     obtain ⟨v, w⟩ := vw
     exact (wrapF_keeps h _).then_read fun _ => ARead.pure _
 
+/-- `copy.copy(f)` = `Function.__copy__` (no hypothesis): a second `Function` on the same
+node with its own reference -/
+theorem fCopy_keeps (hs : Nat) (h : Nat) : AKeeps h (fCopy hs h) := by
+  unfold fCopy
+  refine AKeeps.bind_read (nodeOwn_read hs) fun s => ?_
+  exact (wrapF_keeps h s).then_read fun _ => ARead.pure _
+
 /-! ### histories -/
 
 /-- one step of a history in which the handles in `P` are never dropped: any operation that
